@@ -170,6 +170,129 @@ Example closure_sees_implication :
   closure [("a", ["dep:x"; "b"]); ("b", ["c"]); ("c", [])]%string ["a"]%string = ["a"; "b"; "c"]%string.
 Proof. reflexivity. Qed.
 
+(* ------------------------------------------------------------------ monotonicity: from single features to all feature sets *)
+
+Definition le_val (v w : valuation) : Prop := forall n, v n = true -> w n = true.
+
+Lemma positive_monotone (f : formula) :
+  positive f = true -> forall v w, le_val v w -> eval v f = true -> eval w f = true.
+Proof.
+  induction f as [n|l IH|l IH|g IH|] using formula_ind'; intros Hp v w Hle He; cbn [eval positive] in *.
+  - apply Hle, He.
+  - apply existsb_exists in He as (x & Hx & Hex). apply existsb_exists. exists x. split; [exact Hx|].
+    rewrite Forall_forall in IH. rewrite forallb_forall in Hp. apply (IH x Hx (Hp x Hx) v w Hle Hex).
+  - rewrite forallb_forall in *. intros x Hx. rewrite Forall_forall in IH.
+    apply (IH x Hx (Hp x Hx) v w Hle (He x Hx)).
+  - discriminate.
+  - reflexivity.
+Qed.
+
+Lemma single_le (x : N) (v : valuation) : v x = true -> le_val (single x) v.
+Proof. intros Hv n Hn. unfold single in Hn. apply N.eqb_eq in Hn. subst n. exact Hv. Qed.
+
+(** a use guarded by `any(feature = x1, .., feature = xn)` whose definition has a `not`-free guard: if the definition
+    is compiled in under every SINGLE feature xi alone, it is compiled in under EVERY feature set that compiles the use *)
+Lemma singletons_suffice (xs : list N) (d : formula) :
+  positive d = true ->
+  (forall x, In x xs -> eval (single x) d = true) ->
+  forall v, eval v (FAny (map FVar xs)) = true -> eval v d = true.
+Proof.
+  intros Hp Hs v Hu. cbn [eval] in Hu. apply existsb_exists in Hu as (f & Hf & Hv).
+  apply in_map_iff in Hf as (x & <- & Hx). cbn [eval] in Hv.
+  apply (positive_monotone d Hp (single x) v (single_le x v Hv)). apply Hs, Hx.
+Qed.
+
+Lemma exclusive_dec_sound a b :
+  exclusive_dec a b = true -> forall v, eval v a = true -> eval v b = true -> False.
+Proof.
+  unfold exclusive_dec. intros H v Ha Hb.
+  pose proof (implies_dec_sound _ _ H v) as Hi. cbn [eval forallb existsb] in Hi.
+  rewrite Ha, Hb in Hi. specialize (Hi eq_refl). discriminate.
+Qed.
+
+Lemma pairwise_exclusive_sound l :
+  pairwise_exclusive l = true ->
+  forall v a b (pre mid post : list formula), l = (pre ++ a :: mid ++ b :: post)%list -> eval v a = true -> eval v b = true -> False.
+Proof.
+  induction l as [|x r IH]; intros H v a b pre mid post E Ha Hb.
+  - destruct pre; discriminate.
+  - cbn [pairwise_exclusive] in H. apply andb_true_iff in H as [Hx Hr].
+    destruct pre as [|p pre]; cbn in E; inversion E; subst.
+    + rewrite forallb_forall in Hx. apply (exclusive_dec_sound a b (Hx b (in_or_app mid (b :: post) b (or_intror (in_eq b post)))) v Ha Hb).
+    + apply (IH Hr v a b pre mid post eq_refl Ha Hb).
+Qed.
+
+(* ------------------------------------------------------------------ more theorems over the regenerated facts *)
+
+Lemma trait_exports_dec :
+  forallb (fun e : string * formula * N => equiv_dec (snd (fst e)) (FVar (snd e))) trait_exports = true.
+Proof. vm_compute. reflexivity. Qed.
+
+Lemma trait_exports_exact :
+  forall (v : valuation) (t : string) (g : formula) (feature : N),
+    In (t, g, feature) trait_exports -> eval v g = v feature.
+Proof.
+  intros v t g f Hin. pose proof trait_exports_dec as H. rewrite forallb_forall in H.
+  specialize (H _ Hin). cbn [fst snd] in H. exact (equiv_dec_sound _ _ H v).
+Qed.
+
+Lemma helpers_exact_dec :
+  forallb (fun e : string * formula * formula => equiv_dec (snd (fst e)) (snd e)) helper_exports = true.
+Proof. vm_compute. reflexivity. Qed.
+
+Lemma helpers_exact :
+  forall (v : valuation) (item : string) (d u : formula),
+    In (item, d, u) helper_exports -> eval v d = eval v u.
+Proof.
+  intros v item d u Hin. pose proof helpers_exact_dec as H. rewrite forallb_forall in H.
+  specialize (H _ Hin). cbn [fst snd] in H. exact (equiv_dec_sound _ _ H v).
+Qed.
+
+Lemma alternatives_dec :
+  forallb (fun e : string * list formula => pairwise_exclusive (snd e)) cfg_alternatives = true.
+Proof. vm_compute. reflexivity. Qed.
+
+Lemma alternatives_exclusive :
+  forall (v : valuation) (name : string) (gs : list formula) (a b : formula) (pre mid post : list formula),
+    In (name, gs) cfg_alternatives -> gs = (pre ++ a :: mid ++ b :: post)%list ->
+    eval v a = true -> eval v b = true -> False.
+Proof.
+  intros v name gs a b pre mid post Hin E. pose proof alternatives_dec as H. rewrite forallb_forall in H.
+  specialize (H _ Hin). cbn [snd] in H. exact (pairwise_exclusive_sound gs H v a b pre mid post E).
+Qed.
+
+Lemma std_uses_dec : forallb (fun g => implies_dec g (FVar std_var)) std_use_guards = true.
+Proof. vm_compute. reflexivity. Qed.
+
+Lemma std_only_under_std :
+  forall (v : valuation) (g : formula), In g std_use_guards -> eval v g = true -> v std_var = true.
+Proof.
+  intros v g Hin. pose proof std_uses_dec as H. rewrite forallb_forall in H.
+  exact (implies_dec_sound _ _ (H _ Hin) v).
+Qed.
+
+Lemma doc_files_present : forallb (fun e : string * bool => snd e) doc_files = true.
+Proof. vm_compute. reflexivity. Qed.
+
+(** what is visible under a feature SET is the union of what its single features make visible
+    (for a name whose export guard is equivalent to one feature variable) *)
+Lemma visible_union (g : formula) (f : N) :
+  (forall v, eval v g = v f) -> forall S : list N, visible_under g S = existsb (fun x => visible_under g [x]) S.
+Proof.
+  intros Hg S. unfold visible_under. rewrite Hg. unfold of_list.
+  induction S as [|x r IH]; [reflexivity|]. cbn [existsb]. rewrite IH. f_equal.
+  rewrite Hg. cbn [existsb]. rewrite orb_false_r. reflexivity.
+Qed.
+
+Example positive_example : positive (FAll [FAny [FVar 0; FVar 1]; FVar 2]) = true. Proof. reflexivity. Qed.
+Example not_positive_example : positive (FAll [FVar 0; FNot (FVar 1)]) = false. Proof. reflexivity. Qed.
+Example singletons_instance :
+  forall v, eval v (FAny (map FVar [0; 1])) = true -> eval v (FAny [FVar 0; FVar 1; FVar 2]) = true.
+Proof. apply singletons_suffice; [reflexivity|]. intros x [<-|[<-|[]]]; reflexivity. Qed.
+Example exclusive_example : pairwise_exclusive [FAll [FVar 0; FNot (FVar 1)]; FAll [FVar 0; FVar 1]] = true.
+Proof. reflexivity. Qed.
+Example not_exclusive_example : pairwise_exclusive [FVar 0; FVar 1] = false. Proof. reflexivity. Qed.
+
 (* ------------------------------------------------------------------ the procedure on small instances *)
 
 Example implies_any : implies_dec (FVar 1) (FAny [FVar 0; FVar 1]) = true. Proof. reflexivity. Qed.
